@@ -49,6 +49,7 @@ func runC05(c *Config, r *Report) {
 	c05R18(ic, r)
 	c05R19(ic, r)
 	c05R20(ic, r)
+	c05R21(ic, r)
 	c04R20(ic, r, "R05.15")
 	c05R11(ic, r)
 	c05R3(ic, r)
@@ -1615,5 +1616,70 @@ func c05R20(ic *IC, r *Report) {
 	})
 	if n < 2 {
 		r.Errorf("R05.20: only %d values asserted to valueInterface and then read through their node found in typeAssert", n)
+	}
+}
+
+func init() {
+	ruleText["R05.21"] = "fields and methods are promoted through embedded fields only: every look-up method of *itype (name starting with lookup) that loops over the fields of a struct type and goes on into the type of a field (uses the loop variable's typ) tests the embed flag of that field inside the loop - sibling agreement: lookupBinField, lookupMethod and lookupBinMethod did, lookupField did not, so t.X resolved to the field X of a *named* field's type"
+}
+
+// c05R21: D141 (round-6 report on C12, 2.1; round-7 report on C05, D20).
+func c05R21(ic *IC, r *Report) {
+	info := ic.Info
+	fieldFld := ic.field("itype", "field")
+	typFld := ic.field("structField", "typ")
+	embFld := ic.field("structField", "embed")
+	if fieldFld == nil || typFld == nil || embFld == nil {
+		r.Errorf("R05.21: itype.field / structField.typ / structField.embed not found")
+		return
+	}
+	n := 0
+	for _, name := range sortedKeys(ic.F) {
+		fi := ic.F[name]
+		if fi.Decl.Body == nil || !strings.HasPrefix(name, "itype.lookup") {
+			continue
+		}
+		k := 0
+		ast.Inspect(fi.Decl.Body, func(q ast.Node) bool {
+			rs, ok := q.(*ast.RangeStmt)
+			if !ok || rs.Value == nil {
+				return true
+			}
+			if se, ok := unparen(rs.X).(*ast.SelectorExpr); !ok || selField(info, se) != fieldFld {
+				return true
+			}
+			vid := identOf(rs.Value)
+			if vid == nil {
+				return true
+			}
+			v := info.ObjectOf(vid)
+			usesTyp, testsEmbed := false, false
+			ast.Inspect(rs.Body, func(z ast.Node) bool {
+				se, ok := z.(*ast.SelectorExpr)
+				if !ok {
+					return true
+				}
+				if id := identOf(se.X); id != nil && info.ObjectOf(id) == v {
+					switch selField(info, se) {
+					case typFld:
+						usesTyp = true
+					case embFld:
+						testsEmbed = true
+					}
+				}
+				return true
+			})
+			if !usesTyp {
+				return true
+			}
+			n++
+			k++
+			r.Check(testsEmbed, "R05.21", fmt.Sprintf("%s/field-loop#%d/only-embedded-fields-promote", name, k), ic.pos(rs.Pos()), "the loop tests the embed flag of the field before going into its type",
+				name+" goes into the type of every field of a struct ("+ic.pos(rs.Pos())+") without testing whether the field is embedded: the fields (or methods) of a *named* field's type are found as if they were promoted - with type U struct{ X int }; type T struct{ U U }, t.X is accepted and reads t.U.X, and in a deeper structure the field of a named field can win over the promoted one (compiled Go: t.X undefined)")
+			return true
+		})
+	}
+	if n < 3 {
+		r.Errorf("R05.21: only %d loops over struct fields going into the field types found in the look-up methods of itype", n)
 	}
 }
